@@ -36,6 +36,7 @@ PROPS["C13"] = {
             "pkg": "primitives/merlin", "configs": ["default", "purego"],
             "tests": {
                 "TestC13History": T(30000, 2000000),
+                "FuzzC13History": FUZZ(90, configs=["default"]),
                 "TestC13Twin": T(4000, 150000),
                 "TestC13Injective": T(20000, 600000),
             },
